@@ -171,19 +171,22 @@ Definition ex_scfg : scfg := mkScfg 10123 10123 10 true.
 
 Example C13_nonvacuous :
   (exists o, server_auth ex_mac ex_key ex_scfg ex_req = AuthOk (repeat 0 16) o) /\
-  (exists t, server_step ex_mac ex_rev ex_key ex_ntp ex_scfg ex_req [] = Send ToLastHop t /\
-             client_run ex_mac ex_cc false 0 [(deliver t false, 0)] = CAccept 0 true) /\
+  (match server_step ex_mac ex_rev ex_key ex_ntp ex_scfg ex_req [] with
+   | Send ToLastHop t => client_run ex_mac ex_cc false 0 [(deliver t false, 0)] = CAccept 0 true
+   | _ => False
+   end) /\
   (* the same request with one payload byte changed is dropped *)
   (let bad := mkRx true (rx_layers ex_req) (rx_hdr ex_req) (rx_opts ex_req)
                    (Udp 40000 10123 56 (34 :: repeat 35 47)) (rx_buflen ex_req) true in
    server_step ex_mac ex_rev ex_key ex_ntp ex_scfg bad [] = Drop 10) /\
   (* a packet for another end-host port is forwarded by the end-host port listener only *)
   (let fq := mkRx true [LT_SCION; LT_UDP] (set_next ex_hdr L4_UDP) [] (Udp 40000 31000 56 (repeat 35 48)) 200 true in
-   (exists t, server_step ex_mac ex_rev ex_key ex_ntp (mkScfg 10123 endhost_port 10 true) fq [] = Send (ToHostPort [10;0;0;1] 31000) t) /\
+   (match server_step ex_mac ex_rev ex_key ex_ntp (mkScfg 10123 endhost_port 10 true) fq [] with
+    | Send (ToHostPort [10;0;0;1] 31000) _ => True | _ => False end) /\
    server_step ex_mac ex_rev ex_key ex_ntp ex_scfg fq [] = Drop 8).
 Proof.
-  split; [eexists; vm_compute; reflexivity|].
-  split; [eexists; split; vm_compute; reflexivity|].
+  split; [exists (hd (mkOpt 0 []) (rx_opts ex_req)); vm_compute; reflexivity|].
   split; [vm_compute; reflexivity|].
-  split; [eexists; vm_compute; reflexivity|vm_compute; reflexivity].
+  split; [vm_compute; reflexivity|].
+  split; [vm_compute; exact I|vm_compute; reflexivity].
 Qed.
